@@ -244,7 +244,10 @@ def harness(spec):
     def h(ex):
         from dagrt.codegen.dag_ast import create_ast_from_phase
         n = len(spec["kinds"])
-        order, _ = symbolic_sort(list(range(n)), "store")
+        if spec.get("order") is not None:
+            order = list(spec["order"])   # merge-run chains: one topological order, one stated storage order
+        else:
+            order, _ = symbolic_sort(list(range(n)), "store")
         stmts, dag = make_phase(spec, order)
         ex.stats.obligations += 1
         try:
@@ -350,6 +353,23 @@ def gen_specs(tier, seed):
                     # quick: one of the six labellings per spec (rotating); thorough: all six when there are edges
                     for labels in (lab3 if (tier == "thorough" and edges) else [lab3[(k // step) % 6]]):
                         specs.append({"kinds": list(kinds), "guards": list(guards), "edges": edges, "labels": labels})
+    # merge-run chains (after seeded change C05_r7): a chain s0 -> s1 -> ... has ONE topological order, so the guard word is
+    # exactly the sequence of adjacent conditionals the lowering's simplifier merges: every word over the alphabet,
+    # i.e. every pattern of merge runs (two runs separated by something, negated next to plain, ...)
+    chain_sets = [(5, ["T", "c0", "!c0", "c1", "!c1"]), (6, ["T", "c0", "!c0", "c1"])]
+    if tier == "thorough":
+        chain_sets += [(6, ["T", "c0", "!c0", "c1", "!c1"]), (7, ["T", "c0", "!c0", "c1"])]
+    seen_words = set()
+    for n, alpha in chain_sets:
+        for k2, word in enumerate(itertools.product(alpha, repeat=n)):
+            if (n, word) in seen_words:
+                continue
+            seen_words.add((n, word))
+            kinds = ["assign"] * n
+            if k2 % 7 == 3:
+                kinds[k2 % n] = "yield"
+            specs.append({"kinds": kinds, "guards": list(word), "edges": [(i, i - 1) for i in range(1, n)],
+                          "order": list(range(n)) if k2 % 2 == 0 else list(range(n - 1, -1, -1))})
     n_exh = len(specs)
     rng = random.Random(seed)
     nrand = 1500 if tier == "quick" else 15000
@@ -404,7 +424,7 @@ def main(tier, seed):
     specs, n_exh, nrand = gen_specs(tier, seed)
     for part in pmap("vf.checks.c05", "work", [{"specs": p} for p in chunks(specs, common.NPROC * 4)]):
         run.absorb(part)
-    run.bounds = {"exhaustive_specs": n_exh, "random_specs": nrand, "statements": "<= 5", "flags": 3,
+    run.bounds = {"exhaustive_specs": n_exh, "random_specs": nrand, "statements": "<= 5 (chains: <= 6 quick, <= 7 thorough)", "flags": 3,
                   "kinds": KINDS, "guards": GUARDS, "storage_orders": "all permutations (symbolic ranks)"}
     run.selftests = selftests()
     if not all(run.selftests.values()):
@@ -417,7 +437,7 @@ def main(tier, seed):
     ]
     return run.finish(
         rule="hand-built phases: all kinds^2 x guards^2 x edge sets for N=2; %s of the 4 kinds^3 x 4 guards^3 x 8 edge sets for N=3; %d seeded random phases with "
-             "N=4..5; each under every storage order; non-trivial = has an edge or a guard" % ("all" if tier == "thorough" else "every 3rd", nrand),
+             "N=4..5; each under every storage order; every guard word over {T, c0, !c0, c1[, !c1]} on dependency chains of 5-6 (thorough: 7) statements (all merge-run patterns of the simplifier); non-trivial = has an edge or a guard" % ("all" if tier == "thorough" else "every 3rd", nrand),
         explanation="real create_ast_from_phase + real lower_node per (phase, storage order) path; one z3 validity query per leaf (path condition <=> guard for all "
                     "flag valuations); structural clauses concrete",
         classify=classify)
